@@ -649,8 +649,11 @@ static int _upipe_xfer_mgr_attach(struct upipe_mgr *mgr,
 static inline int _upipe_xfer_mgr_freeze(struct upipe_mgr *mgr)
 {
     struct upipe_xfer_mgr *xfer_mgr = upipe_xfer_mgr_from_upipe_mgr(mgr);
+    /* only keep a reference when the event loop is actually frozen: thaw is
+     * not called after a failed freeze */
+    UBASE_RETURN(umutex_lock(xfer_mgr->mutex))
     upipe_mgr_use(mgr);
-    return umutex_lock(xfer_mgr->mutex);
+    return UBASE_ERR_NONE;
 }
 
 /** @This thaws the remote event loop previously frozen by @ref
